@@ -219,7 +219,7 @@ type Result struct {
 }
 
 // RunGroup runs the given specs concurrently on ONE Workstream over one fresh in-memory sqlite vault.
-func RunGroup(specs []*Spec, seed uint64) []Result {
+func RunGroup(specs []*Spec, seed uint64, o Options) []Result {
 	ctx := context.Background()
 	set := plugSetup()
 	res := make([]Result, len(specs))
@@ -256,9 +256,38 @@ func RunGroup(specs []*Spec, seed uint64) []Result {
 	for i := range specs {
 		r := prs[i]
 		r.t0 = time.Now()
-		if r.startErr == "" {
+		if r.startErr == "" && o.RaceStart >= 2 {
+			// k racing Start calls released together: the losers' errors are expected, exactly one must win
+			var sw sync.WaitGroup
+			var smu sync.Mutex
+			gun := make(chan struct{})
+			lastErr := ""
+			for j := 0; j < o.RaceStart; j++ {
+				sw.Add(1)
+				go func() {
+					defer sw.Done()
+					<-gun
+					err := ws.Start(ctx, r.ID)
+					smu.Lock()
+					if err == nil {
+						r.startOK++
+					} else {
+						lastErr = err.Error()
+					}
+					smu.Unlock()
+				}()
+			}
+			close(gun)
+			sw.Wait()
+			r.raced = o.RaceStart
+			if r.startOK == 0 {
+				r.startErr = "start: none of the racing Start calls succeeded: " + lastErr
+			}
+		} else if r.startErr == "" {
 			if err := ws.Start(ctx, r.ID); err != nil {
 				r.startErr = "start: " + err.Error()
+			} else {
+				r.startOK = 1
 			}
 		}
 		if r.startErr != "" {
@@ -333,7 +362,8 @@ func (r *PlanRun) finish() Result {
 	logMu.Lock()
 	r.closed = true
 	evs := r.events
-	hang, late := r.hang, r.lateStarts > 0
+	hang, late := r.hang, r.lateStarts > 0 || r.lateEnds > 0
+	lateStarts, lateEnds := r.lateStarts, r.lateEnds
 	inflight := 0
 	for _, a := range r.acts {
 		if a.flying && !a.overrunFly {
@@ -377,7 +407,8 @@ func (r *PlanRun) finish() Result {
 	}
 	allOK := outcomes["err"]+outcomes["perm"]+outcomes["wrongtype"]+outcomes["overrun"] == 0
 	dist := map[string]any{"events": len(evs), "kinds": kinds, "outcomes": outcomes, "hang": hang,
-		"after_release": after, "probes": probes}
+		"after_release": after, "probes": probes, "late_starts": lateStarts, "late_ends": lateEnds,
+		"start_ok": r.startOK, "racing_starts": r.raced}
 	for k, v := range sp.Dist {
 		dist[k] = v
 	}
@@ -398,11 +429,13 @@ func (r *PlanRun) finish() Result {
 		Hash:       core.Hash(shape, strings.Join(hashed, ";")),
 		Dist:       dist,
 		Input:      map[string]any{"seed": core.Seed(), "index": sp.Index, "profile": sp.Profile, "spec": sp},
-		Observed:   map[string]any{"events": human, "director": dirLog, "hang": hang},
+		Observed:   map[string]any{"events": human, "director": dirLog, "hang": hang, "start_ok": r.startOK, "racing_starts": r.raced},
 	}
 	switch {
 	case r.startErr != "":
 		c.Note = "harness: " + r.startErr
+	case r.startOK > 1:
+		c.Note = fmt.Sprintf("start: %d of %d racing Start calls returned nil", r.startOK, r.raced)
 	case hang:
 		c.Note = "hang: Wait did not return within " + WaitDeadline.String()
 	case after > 0:
